@@ -99,6 +99,13 @@ func rawFieldName(v ssa.Value) (string, string) {
 		case *ssa.MakeInterface:
 			v = x.X
 			continue
+		case *ssa.BinOp:
+			// `x.f.load() != pending`: the flag read of a private state type
+			if addr, ok := StateLoadCmp(x); ok {
+				v = addr
+				continue
+			}
+			return "", ""
 		case *ssa.Call:
 			// AtomBool.Get(&x.f) → the field f
 			if g := Callee(&x.Call); g != nil && (g.Name() == "Get" || IsAtomGet(g)) && len(x.Call.Args) == 1 {
@@ -453,7 +460,26 @@ func ResolveRoles(p *Prog) {
 		{"obOn", func(*types.Struct, map[string]bool) string { return r.setBy(F, "MonadIODef", "MonadIODef", "ObserveOn") }},
 		{"subOn", func(*types.Struct, map[string]bool) string { return r.setBy(F, "MonadIODef", "MonadIODef", "SubscribeOn") }},
 	})
-	resolve(F, "HandlerDef", []spec{{"ch", byType(isChanT)}, {"isClosed", byType(isBoolT)}})
+	isFlagT := func(t types.Type) bool {
+		if isBoolT(t) || isNamed(t, "", "AtomBool") || isNamed(t, "sync/atomic", "Bool") {
+			return true
+		}
+		// a private two-state type standing for the flag (it has a recognised reader helper)
+		if n, ok := t.(*types.Named); ok && !n.Obj().Exported() {
+			for _, recv := range []types.Type{n, types.NewPointer(n)} {
+				ms := p.SSA.MethodSets.MethodSet(recv)
+				for i := 0; i < ms.Len(); i++ {
+					if fo, isF := ms.At(i).Obj().(*types.Func); isF {
+						if g := p.SSA.FuncValue(fo); g != nil && stateAccessor(g) == "get" {
+							return true
+						}
+					}
+				}
+			}
+		}
+		return false
+	}
+	resolve(F, "HandlerDef", []spec{{"ch", byType(isChanT)}, {"isClosed", byType(isFlagT)}})
 	resolve(F, "ActorDef", []spec{
 		{"ch", byType(isChanT)},
 		{"isClosed", ret(F, "ActorDef", "IsClosed")},
